@@ -658,6 +658,11 @@ pub fn eval_case(case: &Case, mut drv: Option<&mut Drv>, pools: &Pools, tune: &T
                 res.impl_v.push(("setup".into(), format!("ParSeq::setup ran the setup hook of leaf {} {} times [tree {}]", t, n, case.shape.text())));
                 break;
             }
+            let u = shared.behav[t].sys_setups.load(SeqCst);
+            if u != 1 {
+                res.impl_v.push(("setup".into(), format!("ParSeq::setup called the leaf's own System::setup of leaf {} {} times [tree {}]", t, u, case.shape.text())));
+                break;
+            }
         }
         if ri == 0 && model_built {
             if let Some(drv) = drv.as_deref_mut() {
